@@ -9,12 +9,12 @@
    are arbitrary; the hypothesis `forall a, job_ok a = true` (job bodies return: they neither panic nor - as a
    step of the transition system - block) is visible in every statement that needs it.  The number of workers
    `n` is arbitrary (the code starts 1..16).  `reachable jf job_ok n s`: s is the state after any trace, shorter
-   than 2^63 steps, of the transition system from `init n` in which every batch (make_spawner) is started when
+   than 2^63 steps (`reachable_in .. k s`: of exactly k steps), of the transition system from `init n` in which every batch (make_spawner) is started when
    nothing is outstanding and has at most 15 spawns (`bdisc_trace`); all interleavings of the workers and the
    submitter, including spurious wake-ups, are traces. *)
 From Coq Require Import NArith List Permutation.
 From V Require Import lib.Words gen.GenPool spec.PoolSpec model.Pool
-  proofs.Queue_proofs proofs.Pool_inv proofs.Pool_proofs proofs.Pool_live proofs.Pool_final.
+  proofs.Queue_proofs proofs.Pool_inv proofs.Pool_proofs proofs.Pool_live proofs.Pool_final proofs.Pool_measure.
 Import ListNotations.
 Open Scope N_scope.
 
@@ -116,6 +116,35 @@ Theorem C07_drop : forall jf job_ok, (forall a, job_ok a = true) -> forall n s,
        nth_error (wpcs s') i = Some pc /\ immediate_shutdown (wq s') = true).
 Proof. exact thm_drop. Qed.
 Print Assumptions C07_drop.
+
+(* ---------------------------------------------------------------------------------------------- termination *)
+(* `measure` = (4 per queued job + remaining steps of the jobs in hand) * (2 * workers + 2) + the number of steps
+   the threads can make without anybody making progress.  Every step of a worker decreases it, and so does a
+   re-check of a blocked join that blocks again: the only stuttering is wake, re-check, wait, and it is bounded. *)
+Theorem C07_measure : forall jf job_ok, (forall a, job_ok a = true) -> forall n s,
+  reachable jf job_ok n s ->
+  (forall i s', step jf job_ok s (MWorker i) = Some (Ok s') -> (measure s' < measure s)%nat) /\
+  (forall w s', sub s = SJoinWait w -> step jf job_ok s (MJoin w) = Some (Ok s') -> sub s' <> SIdle ->
+                (measure s' < measure s)%nat).
+Proof. exact thm_measure. Qed.
+Print Assumptions C07_measure.
+
+(* Liveness of join.  Hypotheses, all visible: job bodies return (job_ok; in the transition system running a job
+   is one step, so a body that never returns is a worker that is never scheduled), at least one worker, and the
+   scheduler keeps running enabled threads - there is no fairness assumption beyond that because, without
+   further spurious wake-ups, *every* schedule is short: while the submitter sits in join w the threads can take
+   at most `measure s` steps (pending_run: steps of workers and re-checks of the join, the join still pending
+   after each), and in every state of such a run some thread can take a step.  So the run can only end by the
+   join returning.  (The full statement - infinitely many spurious wake-ups, weak fairness - is `live_stmt` in
+   proofs/Pool_measure.v; it is not proved.) *)
+Definition C07_live_stmt : Prop := live_stmt.
+
+Theorem C07_live_partial : forall jf job_ok, (forall a, job_ok a = true) -> forall n k s w,
+  reachable_in jf job_ok n k s -> (0 < n)%nat -> k + N.of_nat (measure s) + 1 < 2 ^ 63 -> sub s = SJoinWait w ->
+  forall tr s', pending_run jf job_ok w s tr s' ->
+    (length tr <= measure s)%nat /\ exists m, pending_move w m /\ enabled jf job_ok s' m = true.
+Proof. exact thm_join_terminates. Qed.
+Print Assumptions C07_live_partial.
 
 (* ---------------------------------------------------------------------------------------------- the boundary *)
 (* Exact version of the discipline: it is enough that every spawn is issued while at most 15 items (queued +
